@@ -247,3 +247,155 @@ Proof.
     rewrite Forall_forall in F. apply F. exact Hkv.
   - right. eauto.
 Qed.
+
+(* ---------- the rstrip() of the admonition option block ---------- *)
+
+Lemma lstrip_app x y : lstrip x <> [] -> lstrip (x ++ y) = lstrip x ++ y.
+Proof.
+  induction x as [|c x IH]; simpl; intro H; [congruence|]. destruct (is_space c); [apply IH; exact H|reflexivity].
+Qed.
+
+Lemma rstrip_app a b : rstrip b <> [] -> rstrip (a ++ b) = a ++ rstrip b.
+Proof.
+  unfold rstrip. intro H. rewrite rev_app_distr. rewrite lstrip_app.
+  - rewrite rev_app_distr, rev_involutive. reflexivity.
+  - intro E. apply H. rewrite E. reflexivity.
+Qed.
+
+Lemma rstrip_keep p x : is_space x = false -> rstrip (p ++ [x]) = p ++ [x].
+Proof. intro H. unfold rstrip. rewrite rev_app_distr. simpl. rewrite H. simpl. rewrite rev_involutive. reflexivity. Qed.
+
+Lemma G_isspace : py_isspace = re_space. Proof. reflexivity. Qed.
+
+Lemma restc_not_space c : plain_restc c = true -> is_space c = false.
+Proof.
+  unfold plain_restc, excl, is_space. rewrite G_isspace. intro H. apply negb_true_iff in H.
+  apply orb_false_iff in H as [_ H]. exact H.
+Qed.
+
+Lemma firstc_not_space c : plain_firstc c = true -> is_space c = false.
+Proof.
+  unfold plain_firstc, excl, is_space. rewrite G_isspace. intro H. apply negb_true_iff in H.
+  apply orb_false_iff in H as [_ H]. exact H.
+Qed.
+
+Lemma plain_tail_last : forall r b, plain_tail b r = true -> r <> [] ->
+  exists p x, r = p ++ [x] /\ is_space x = false.
+Proof.
+  induction r as [|c r IH]; intros b H Hne; [congruence|]. cbn [plain_tail] in H.
+  destruct r as [|c2 r2].
+  - exists [], c. split; [reflexivity|]. destruct (plain_restc c) eqn:Ec; [apply restc_not_space; exact Ec|].
+    destruct (N.eqb c plain_sep && negb b); [simpl in H; discriminate|discriminate].
+  - assert (H' : exists b', plain_tail b' (c2 :: r2) = true).
+    { destruct (plain_restc c); [eauto|]. destruct (N.eqb c plain_sep && negb b); [eauto|discriminate]. }
+    destruct H' as [b' H']. destruct (IH b' H') as [p [x [E Hx]]]; [discriminate|].
+    exists (c :: p), x. rewrite E. auto.
+Qed.
+
+Lemma option_value_last v : option_value v <> [] -> exists p x, option_value v = p ++ [x] /\ is_space x = false.
+Proof.
+  unfold option_value. destruct (match v with Some s => s | None => [] end) as [|c r] eqn:E;
+    [intro H; cbn in H; congruence|]. intros _.
+  cbn [truthy andb]. destruct (plain_fullmatch (c :: r)) eqn:Ep; cbn [negb].
+  - cbn [plain_fullmatch] in Ep. apply andb_true_iff in Ep as [Ec Er]. destruct r as [|c2 r2].
+    + exists [], c. split; [reflexivity|apply firstc_not_space; exact Ec].
+    + destruct (plain_tail_last _ _ Er) as [p [x [Ex Hx]]]; [discriminate|]. exists (c :: p), x. rewrite Ex. auto.
+  - rewrite G_quote. exists ([34] ++ escape_value (c :: r)), 34. split; [rewrite <- app_assoc; reflexivity|reflexivity].
+Qed.
+
+Lemma option_value_empty v : value_or_empty v = [] -> option_value v = [].
+Proof. unfold option_value, value_or_empty. intros ->. reflexivity. Qed.
+
+Lemma option_value_nonempty v : value_or_empty v <> [] -> option_value v <> [].
+Proof.
+  unfold option_value, value_or_empty. destruct (match v with Some s => s | None => [] end) as [|c r]; [congruence|].
+  intros _. cbn [truthy andb]. destruct (negb (plain_fullmatch (c :: r))); [rewrite G_quote|]; discriminate.
+Qed.
+
+(* the last option line after rstrip() *)
+Lemma rstrip_last_line kv : rstrip (58 :: yaml_line kv) = 58 :: yaml_line_last kv /\ rstrip (58 :: yaml_line kv) <> [].
+Proof.
+  unfold yaml_line, yaml_line_last. destruct kv as [k v]. cbn [fst snd].
+  destruct (value_or_empty v) as [|c0 r0] eqn:Ev.
+  - rewrite (option_value_empty v Ev), app_nil_r.
+    assert (E : 58 :: k ++ [58; 32] = (58 :: k ++ [58]) ++ [32]) by (cbn [app]; rewrite <- app_assoc; reflexivity).
+    rewrite E. unfold rstrip. rewrite rev_app_distr. cbn [rev app lstrip].
+    change (is_space 32) with true. cbn iota.
+    rewrite rev_app_distr. cbn [rev app lstrip]. change (is_space 58) with false. cbn iota.
+    split.
+    + change (rev (58 :: rev k ++ [58])) with (rev (rev k ++ [58]) ++ [58]).
+      rewrite rev_app_distr, rev_involutive. reflexivity.
+    + intro H. apply (f_equal (@length N)) in H. rewrite rev_length in H. simpl in H. discriminate.
+  - destruct (option_value_last v) as [p [x [Ex Hx]]]; [apply option_value_nonempty; congruence|].
+    rewrite Ex. assert (E : 58 :: k ++ [58; 32] ++ p ++ [x] = (58 :: k ++ [58; 32] ++ p) ++ [x])
+      by (cbn [app]; rewrite <- !app_assoc; reflexivity).
+    rewrite E, (rstrip_keep _ x Hx). split; [unfold yaml_line; cbn [fst snd]; rewrite Ex, E; reflexivity|]. cbn [app]. discriminate.
+Qed.
+
+(* colon-prefixed lines of the right-stripped block *)
+Fixpoint block_text_r (kvs : attrs) : str :=
+  match kvs with
+  | [] => []
+  | [kv] => 58 :: yaml_line_last kv
+  | kv :: rest => (58 :: yaml_line kv) ++ [10] ++ block_text_r rest
+  end.
+
+Lemma rstrip_block : forall kvs, kvs <> [] ->
+  rstrip (block_text (map yaml_line kvs)) = block_text_r kvs /\ block_text_r kvs <> [].
+Proof.
+  induction kvs as [|kv rest IH]; intro Hne; [congruence|]. destruct rest as [|kv2 rest'].
+  - unfold block_text. cbn [map join block_text_r]. destruct (rstrip_last_line kv) as [E1 E2]. rewrite E1. split; [reflexivity|discriminate].
+  - destruct (IH ltac:(discriminate)) as [E1 E2].
+    cbn [map]. rewrite block_text_cons.
+    assert (Ea : 58 :: yaml_line kv ++ 10 :: block_text (yaml_line kv2 :: map yaml_line rest')
+                 = (58 :: yaml_line kv ++ [10]) ++ block_text (map yaml_line (kv2 :: rest')))
+      by (cbn [app map]; rewrite <- app_assoc; reflexivity).
+    rewrite Ea. rewrite rstrip_app by (rewrite E1; exact E2). rewrite E1.
+    split; [cbn [block_text_r app]; rewrite <- app_assoc; reflexivity|discriminate].
+Qed.
+
+(* the admonition content: right-stripped option lines, a blank line, the body *)
+Theorem admonition_options_extracted (kvs : attrs) (body : str) :
+  kvs <> [] -> Forall (fun kv => wf_key (fst kv) = true) kvs ->
+  exists rest,
+    extract_options (rstrip (block_text (map yaml_line kvs)) ++ 10 :: 10 :: body) = Some (yaml_block_r kvs, rest)
+    /\ options_to_items (yaml_block_r kvs) = RdOk (map (fun kv => (fst kv, value_or_empty (snd kv))) kvs).
+Proof.
+  intros Hne F. destruct (rstrip_block kvs Hne) as [E _]. rewrite E.
+  (* the lines of the stripped block *)
+  set (ylines := (fix go (l : attrs) : list str :=
+                    match l with [] => [] | [kv] => [yaml_line_last kv] | kv :: r => yaml_line kv :: go r end) kvs).
+  assert (Eb : block_text_r kvs = block_text ylines /\ yaml_block_r kvs = join [10] ylines /\ ylines <> []
+               /\ Forall (fun y => no_nl y = true) ylines).
+  { unfold ylines. clear E ylines. induction kvs as [|kv rest IH]; [congruence|]. inversion F as [|? ? Hk Fr]; subst.
+    destruct rest as [|kv2 rest'].
+    - split; [reflexivity|]. split; [reflexivity|]. split; [discriminate|]. constructor; [|constructor].
+      unfold yaml_line_last. destruct (value_or_empty (snd kv)).
+      + unfold wf_key in Hk. apply andb_true_iff in Hk as [_ Hk]. rewrite no_nl_app, (key_no_nl _ Hk). reflexivity.
+      + apply yaml_line_no_nl. exact Hk.
+    - destruct (IH ltac:(discriminate) Fr) as [I1 [I2 [I3 I4]]].
+      set (ys := (fix go (l : attrs) : list str :=
+                    match l with [] => [] | [kv] => [yaml_line_last kv] | kv :: r => yaml_line kv :: go r end) (kv2 :: rest')) in *.
+      split; [|split; [|split; [discriminate|constructor; [apply yaml_line_no_nl; exact Hk|exact I4]]]].
+      + change (block_text_r (kv :: kv2 :: rest')) with ((58 :: yaml_line kv) ++ [10] ++ block_text_r (kv2 :: rest')).
+        rewrite I1. unfold block_text. destruct ys as [|y ys']; [congruence|]. reflexivity.
+      + change (yaml_block_r (kv :: kv2 :: rest')) with (yaml_line kv ++ [10] ++ yaml_block_r (kv2 :: rest')).
+        rewrite I2. destruct ys as [|y ys']; [congruence|]. reflexivity. }
+  destruct Eb as [E1 [E2 [E3 E4]]]. rewrite E1, E2.
+  destruct (extract_block ylines (10 :: 10 :: body) E3 E4) as [rest Hr]; [right; eauto|].
+  exists rest. split; [exact Hr|]. rewrite <- E2. apply values_carried_rstripped. exact F.
+Qed.
+
+Theorem admonition_options_carried (a : attrs) (body : str) :
+  let opts := filter (fun kv => mem_str (fst kv) option_keys_admonition) (sorted_items a) in
+  opts <> [] ->
+  exists rest,
+    extract_options (rstrip (option_block option_keys_admonition a) ++ 10 :: 10 :: body) = Some (yaml_block_r opts, rest)
+    /\ options_to_items (yaml_block_r opts) = RdOk (map (fun kv => (fst kv, value_or_empty (snd kv))) opts).
+Proof.
+  intros opts Hne. rewrite option_block_lines. fold opts.
+  assert (E : join [10] (map (fun kv => [58] ++ yaml_line kv) opts) = block_text (map yaml_line opts)).
+  { unfold block_text. rewrite map_map. reflexivity. }
+  rewrite E. apply admonition_options_extracted; auto. apply filter_keys_wf.
+  pose proof keys_wf as K. rewrite forallb_app in K. apply andb_true_iff in K as [_ K]. exact K.
+Qed.
